@@ -71,13 +71,13 @@ type Term struct {
 
 // TermCtx owns all terms of one verification run (one function).
 type TermCtx struct {
-	tab    map[string]*Term
-	next   int
-	decls  map[string]*Term   // declared vars by name
-	ufs    map[string]*UFDecl // uninterpreted functions
-	ufList []string
-	fresh  map[string]int
-	Axioms []*Term // facts about the initial heap, assumed in every obligation
+	tab        map[string]*Term
+	next       int
+	decls      map[string]*Term   // declared vars by name
+	ufs        map[string]*UFDecl // uninterpreted functions
+	ufList     []string
+	fresh      map[string]int
+	Axioms     []*Term // facts about the initial heap, assumed in every obligation
 	bridgeSeen map[int]bool
 }
 
